@@ -213,18 +213,29 @@ impl<'a> IrEmitter<'a> {
         left: &TypedExpr,
         right: &TypedExpr,
     ) -> Result<Option<TokenStream>, EmitError> {
-        // Helper to convert an expr into a string-literal token if possible
-        let to_lit_tokens = |e: &TypedExpr| -> Option<TokenStream> {
+        // Helper to convert an expr into a string-literal token if possible. A nested addition of such operands
+        // (`A + B + "c"`) folds to a nested `concat!`, which is still valid in const contexts.
+        fn to_lit_tokens(this: &IrEmitter<'_>, e: &TypedExpr) -> Option<TokenStream> {
             match &e.kind {
                 IrExprKind::String(s) => Some(quote! { #s }),
                 IrExprKind::Literal(IrLiteral::StaticStr(s)) => Some(quote! { #s }),
-                IrExprKind::Var { name, .. } => self.const_string_literals.get(name).map(|lit| {
+                IrExprKind::Var { name, .. } => this.const_string_literals.get(name).map(|lit| {
                     let l = lit.clone();
                     quote! { #l }
                 }),
+                IrExprKind::BinOp {
+                    op: BinOp::Add,
+                    left,
+                    right,
+                } => {
+                    let l = to_lit_tokens(this, left)?;
+                    let r = to_lit_tokens(this, right)?;
+                    Some(quote! { concat!(#l, #r) })
+                }
                 _ => None,
             }
-        };
+        }
+        let to_lit_tokens = |e: &TypedExpr| to_lit_tokens(self, e);
 
         let l_tok = to_lit_tokens(left);
         let r_tok = to_lit_tokens(right);
